@@ -17,13 +17,14 @@ RULE = ("flag lattices: every one of the 2^k assignments of k boolean cells (jun
         "consumer/ext_grid/circ pump/sink in_service, valve opened (ju and pi), flow control & pressure control "
         "in_service/control_active) on fixed superset networks (two-feeder mesh with tail, ring with junction-pipe "
         "valves, gas tree with compressor, heat ladder with circulation pumps); patterns are not filtered except the "
-        "ambiguous class 'feeder in service on out-of-service junction' (counted). Non-trivial = returned with >=1 "
+        "ambiguous class 'feeder in service on an out-of-service junction that another feeder reaches' (counted). Non-trivial = returned with >=1 "
         "unsupplied and >=1 supplied junction or >=1 out-of-service element; distinct = distinct NaN pattern of all "
         "result tables.")
 ASSUMPTIONS = ["reachability model: in-service/open branches connect, control-active flow controllers and heat consumers "
                "do not (statement: 'hydraulically connecting'), a pipe is cut by a closed junction-pipe valve",
                "junction.in_service is not part of the statement's reachability: an out-of-service junction reached through "
-               "in-service branches is re-activated by the documented connectivity check",
+               "in-service branches is re-activated by the documented connectivity check; a feeder on an out-of-service "
+               "junction that is not reached that way supplies nothing (superset G)",
                "tight solver options for the differential oracle (1e-9)"]
 BR_TABLES = ["pipe", "valve", "pump", "compressor", "flow_control", "press_control", "heat_exchanger", "heat_consumer",
              "circ_pump_mass", "circ_pump_pressure"]
@@ -161,10 +162,30 @@ def superset_E(mode="sequential"):
     return {"fluid": "water", "ops": ops}, flags, {"mode": mode}
 
 
-SUPERSETS = {"A": superset_A, "B": superset_B, "C": superset_C, "D": superset_D, "E": superset_E,
+def superset_G():
+    """feeders on junctions that can themselves be out of service (such a feeder supplies nothing)"""
+    ops = [J(i) for i in range(5)]
+    ops += [
+        {"op": "ext_grid", "id": "eg0", "junction": "j0", "p_bar": 5.0, "t_k": 300.0},
+        {"op": "ext_grid", "id": "eg1", "junction": "j3", "p_bar": 4.9, "t_k": 300.0},
+        {"op": "pipe", "id": "p0", "from": "j0", "to": "j1"},
+        {"op": "valve", "id": "v0", "from": "j0", "to": "j1"},
+        {"op": "pipe", "id": "p1", "from": "j1", "to": "j2", "sections": 2},
+        {"op": "pipe", "id": "p2", "from": "j2", "to": "j3"},
+        {"op": "pipe", "id": "p3", "from": "j3", "to": "j4"},
+        {"op": "sink", "id": "s1", "junction": "j1", "mdot": 0.2},
+        {"op": "sink", "id": "s2", "junction": "j2", "mdot": 0.1},
+        {"op": "sink", "id": "s4", "junction": "j4", "mdot": 0.1},
+    ]
+    flags = [("j0", "in_service"), ("j3", "in_service"), ("p0", "in_service"), ("v0", "opened"), ("p1", "in_service"),
+             ("p2", "in_service"), ("eg0", "in_service"), ("eg1", "in_service"), ("p3", "in_service"), ("j1", "in_service")]
+    return {"fluid": "water", "ops": ops}, flags, {"mode": "hydraulics"}
+
+
+SUPERSETS = {"G": superset_G, "A": superset_A, "B": superset_B, "C": superset_C, "D": superset_D, "E": superset_E,
              "F": lambda: superset_E("bidirectional")}
-QUICK_K = {"A": 10, "B": 9, "C": 9, "D": 9, "E": 7, "F": 7}
-THOROUGH_K = {"A": 14, "B": 13, "C": 11, "D": 9, "E": 9, "F": 9}
+QUICK_K = {"G": 8, "A": 10, "B": 9, "C": 9, "D": 9, "E": 7, "F": 7}
+THOROUGH_K = {"G": 10, "A": 14, "B": 13, "C": 11, "D": 9, "E": 9, "F": 9}
 CHUNK = 16
 
 
